@@ -304,7 +304,7 @@ def origins(fn, op, depth=0, seen=None, through_calls=True):
     if k == "const":
         c = op["c"]
         src = {"k": "const"}
-        for f in ("v", "named", "str", "fn", "ty", "bytes", "pvariant"):
+        for f in ("v", "named", "str", "fn", "ty", "bytes", "pvariant", "promoted", "pvals", "pnames"):
             if f in c:
                 src[f] = c[f]
         return [src]
